@@ -44,6 +44,7 @@ type evMode struct {
 	SendTo  bool   // additionally SendTo the collector socket
 	To16    bool   // pass the collector address in 16-byte IPv4 form
 	Async   bool   // raw cases: reply with AsyncWrite (documented to go synchronously with UDP) instead of Write
+	FailTo  bool   // before the reply, a SendTo to the collector that cannot succeed (70000 bytes: EMSGSIZE)
 }
 
 type caseSpec struct {
@@ -184,6 +185,14 @@ func (s *server) OnTraffic(c gnet.Conn) gnet.Action {
 	} else {
 		reply = append(ack(sender, seq, m.Reply), dgram(sender, seq, m.Reply)...)
 	}
+	if m.FailTo && !s.cs.Mixed {
+		// a SendTo that fails must leave no trace: the reply below still goes to this datagram's sender
+		if w, err := c.SendTo(tooBig, s.collector); err == nil {
+			s.failf("udp-sendto", "SendTo of %d bytes (more than a datagram holds) returned (%d, nil)", len(tooBig), w)
+		} else if w != 0 {
+			s.failf("udp-sendto", "SendTo returned (%d, %v): a byte count together with an error", w, err)
+		}
+	}
 	if w, err := c.Write(reply); err != nil || w != len(reply) {
 		s.failf("udp-write", "Write of a %d-byte reply returned (%d, %v)", len(reply), w, err)
 	}
@@ -225,6 +234,8 @@ func ack(sender, seq, bodyLen int) []byte {
 }
 
 const ackLen = 12
+
+var tooBig = make([]byte, 70000)
 
 func runCase(cs caseSpec) (fails []string, infra string, s *server) {
 	s = &server{cs: cs, addrOf: map[string]int{}, nextSmall: map[int]int{}, smallSeqs: map[int][]int{}, seen: map[[2]int]int{}, sentTo: map[[2]int][]byte{}, sentTo2: map[[2]int][]byte{}, scratch: &net.UDPAddr{}, lastLoopPartial: map[gnet.EventLoop]bool{}}
@@ -557,6 +568,7 @@ func drawCase(t *rapid.T) caseSpec {
 			Reply:   rapid.SampledFrom([]int{-1, -1, hdr, 100, 1400}).Draw(t, "reply"),
 			SendTo:  rapid.IntRange(0, 2).Draw(t, "sendTo") == 0,
 			To16:    rapid.Bool().Draw(t, "to16"),
+			FailTo:  rapid.IntRange(0, 3).Draw(t, "failingSendTo") == 0,
 			Async:   rapid.Bool().Draw(t, "async"),
 		})
 	}
